@@ -1,5 +1,6 @@
 import Minimq.Proofs.Packets
 import Minimq.Reply
+import Minimq.Theorems.InboundProps
 /-
 C20 — reply helpers address exactly the requester.
 
@@ -19,6 +20,16 @@ theorem C20_target (block : Bytes) :
         ({ topic := t, correlationData := (Properties.encoded block).correlationData } : ResponseTarget)) := by
   unfold responseTarget
   cases (Properties.encoded block).responseTopic <;> rfl
+
+/-- **Exactly the requester.** If the broker's property block is the encoding of the property list `l`
+(any well-typed properties, any order, any number of user properties around them), the reply target
+is the first Response Topic and the first Correlation Data of `l`, byte for byte. -/
+theorem C20_target_is_what_the_broker_sent (l : List Property) (block : Bytes)
+    (hwf : ∀ p ∈ l, p.wf = true) (h : encodeProps l = .ok block) :
+    responseTarget block =
+      ((firstVal .ResponseTopic l).map fun t =>
+        ({ topic := t, correlationData := firstVal .CorrelationData l } : ResponseTarget)) := by
+  rw [C20_target, InboundProps_responseTopic l block hwf h, InboundProps_correlationData l block hwf h]
 
 theorem C20_no_response_topic_no_reply (block : Bytes) :
     responseTarget block = none ↔ (Properties.encoded block).responseTopic = none := by
